@@ -39,6 +39,15 @@ Proof. induction l as [|a l IH]; rewrite ?sumf_nil, ?sumf_cons, ?IH; ring. Qed.
 Lemma sumf_scal_r {A} c (f : A -> Qc) l : sumf (fun a => f a * c) l = sumf f l * c.
 Proof. induction l as [|a l IH]; rewrite ?sumf_nil, ?sumf_cons, ?IH; ring. Qed.
 
+Lemma sumf_scal_both {A} c d (f : A -> Qc) l : c * sumf f l * d = sumf (fun a => c * f a * d) l.
+Proof. induction l as [|a l IH]; rewrite ?sumf_nil, ?sumf_cons, <- ?IH; ring. Qed.
+
+Lemma sumf_mul {A B} (f : A -> Qc) (g : B -> Qc) l1 l2 :
+  sumf f l1 * sumf g l2 = sumf (fun a => sumf (fun b => f a * g b) l2) l1.
+Proof.
+  rewrite <- sumf_scal_r. apply sumf_ext. intros a _. rewrite <- sumf_scal. reflexivity.
+Qed.
+
 Lemma sumf_zero {A} (l : list A) : sumf (fun _ => 0) l = 0.
 Proof. induction l as [|a l IH]; rewrite ?sumf_nil, ?sumf_cons, ?IH; ring. Qed.
 
@@ -106,10 +115,10 @@ Section Gram.
     unfold bsum, gram.
     transitivity (sumf (fun i => sumf (fun x => sumf (fun j => c i * (w x * (U x i * V x j)) * d j) J) pts) I).
     { apply sumf_ext. intros i _. rewrite sumf_swap. apply sumf_ext. intros j _.
-      rewrite <- sumf_scal_r, <- sumf_scal. reflexivity. }
+      apply sumf_scal_both. }
     rewrite sumf_swap. apply sumf_ext. intros x _.
-    rewrite <- sumf_scal_r, <- sumf_scal. apply sumf_ext. intros i _.
-    rewrite <- sumf_scal. rewrite <- sumf_scal. apply sumf_ext. intros j _. ring.
+    rewrite sumf_mul, <- sumf_scal. apply sumf_ext. intros i _.
+    rewrite <- sumf_scal. apply sumf_ext. intros j _. ring.
   Qed.
 
   (* mass_sym_psd: the quadratic form is a weighted sum of squares *)
@@ -172,9 +181,11 @@ Lemma tensor3_l {A B C} (P1 : list A) (P2 : list B) (P3 : list C)
   = sumf (fun a => w1 a * (u1 a * v1 a)) P1 * sumf (fun b => w2 b * (u2 b * v2 b)) P2
     * sumf (fun c => w3 c * (u3 c * v3 c)) P3.
 Proof.
-  rewrite <- !sumf_scal_r. apply sumf_ext. intros a _.
-  rewrite <- sumf_scal_r. rewrite <- sumf_scal. apply sumf_ext. intros b _.
-  rewrite <- sumf_scal. apply sumf_ext. intros c _. ring.
+  transitivity (sumf (fun a => (w1 a * (u1 a * v1 a)) *
+       (sumf (fun b => w2 b * (u2 b * v2 b)) P2 * sumf (fun c => w3 c * (u3 c * v3 c)) P3)) P1).
+  - apply sumf_ext. intros a _. rewrite <- tensor2_l. rewrite <- sumf_scal. apply sumf_ext. intros b _.
+    rewrite <- sumf_scal. apply sumf_ext. intros c _. ring.
+  - rewrite sumf_scal_r. ring.
 Qed.
 
 (* the 2D Laplace integrand grad u . grad v with tensor-product functions:
@@ -272,7 +283,8 @@ Proof.
   induction c as [|a c IH]; intros k H.
   - cbn [peval pint l1norm].
     replace (sumf (fun xw : Qc * Qc => snd xw * (qpow (fst xw) k * 0)) r) with 0.
-    + replace (0 - 0) with 0 by ring. replace (eps * 0) with 0 by ring. apply Qcle_refl.
+    + replace (0 - 0) with 0 by ring. replace (eps * 0) with 0 by ring.
+      rewrite Qcabs_pos; apply Qcle_refl.
     + symmetry. transitivity (sumf (fun _ : Qc * Qc => 0) r); [apply sumf_ext; intros; ring|apply sumf_zero].
   - cbn [peval pint l1norm].
     replace (sumf (fun xw => snd xw * (qpow (fst xw) k * (a + fst xw * peval c (fst xw)))) r
